@@ -186,6 +186,9 @@ pub fn c12(ctx: &Ctx) -> PropResult {
         let k = 1 + g.rng.below(4);
         all_programs.push(("random", g.program(k)));
     }
+    // statements after a RETURN in the same block (a linter's favourite): nothing about them reaches standard output
+    all_programs.push(("ok", "PROCEDURE f() {\n RETURN 1\n DISPLAY(\"dead\")\n}\nDISPLAY(f())\n".into()));
+    all_programs.push(("ok", "PROCEDURE f(x) {\n IF (x) {\n  RETURN \"t\"\n  x <- 0\n }\n RETURN \"f\"\n RETURN \"dead\"\n}\nDISPLAY(f(TRUE) + f(FALSE))\nunused <- 5\n".into()));
     for (class, src) in &all_programs {
         for mode in ["file", "eval", "stdin"] {
             for debug in ["none", "time", "all", "lexer", "parser", "interpreter"] {
@@ -415,7 +418,7 @@ pub fn c12(ctx: &Ctx) -> PropResult {
     let stats = collect(verdicts);
     PropResult {
         stats,
-        rule: format!("{} programs (succeeding, lexical / syntax / runtime errors, robot-wall termination, reading INPUT, imports with a bracketed list, random programs) x {{file, -e, --eval-stdin}} x six --debug modes x --check x stdin empty / two lines; the real binary built from /repo without the hook feature is spawned twice per configuration; compared with the model's decision: exit status zero / non-zero, standard-output bytes, diagnostics present on standard error; implementation-only: --check prints nothing, two runs agree; the empty, blank, newline-only, comment-only and `;` programs in every mode, -e included; --check together with every --debug mode (nothing on standard output, nothing executed: a program that creates a file); EXPORT in programs nobody imports; a program in a sub-directory using cwd-relative FS paths, before and after importing a module from elsewhere", all_programs.len()),
+        rule: format!("{} programs (succeeding, lexical / syntax / runtime errors, robot-wall termination, reading INPUT, imports with a bracketed list, random programs) x {{file, -e, --eval-stdin}} x six --debug modes x --check x stdin empty / two lines; the real binary built from /repo without the hook feature is spawned twice per configuration; compared with the model's decision: exit status zero / non-zero, standard-output bytes, diagnostics present on standard error; implementation-only: --check prints nothing, two runs agree; the empty, blank, newline-only, comment-only and `;` programs in every mode, -e included; --check together with every --debug mode (nothing on standard output, nothing executed: a program that creates a file); EXPORT in programs nobody imports; a program in a sub-directory using cwd-relative FS paths, before and after importing a module from elsewhere; statements after RETURN in the same block", all_programs.len()),
         exhaustive: false,
         notes: vec![format!("binary: {BINARY}")],
     }
@@ -696,6 +699,27 @@ pub fn c13(ctx: &Ctx) -> PropResult {
                 let expected = if kind == "unknown-name" { "import-error" } else if pm == "CORE" || visible.contains(pn) && pm == m { "defined" } else if visible.contains(pn) { "defined" } else { "undefined" };
                 // a name exported by two modules (none today) would make this ambiguous; the registry has unique names per module
                 cases.push(Case::new(Kind::Run, src).tag(&format!("library:{kind}")).aux(format!("{expected}|{pn}")));
+            }
+        }
+    }
+    // (appended) selective lists of every length up to the whole module: the listed names become callable, the
+    // module's remaining names do not
+    for m in &modules {
+        let names = names_of(m);
+        for k in [3usize, 8, 15, 16, 17, 18, 24, 25, 31, 32, 33, 40] {
+            if k > names.len() || m == "CORE" {
+                continue;
+            }
+            let listed: Vec<String> = names.iter().take(k).map(|(n, _)| n.clone()).collect();
+            let imp = format!("IMPORT [{}] FROM MOD \"{m}\"\n", listed.iter().map(|n| format!("\"{n}\"")).collect::<Vec<_>>().join(", "));
+            for (idx, (pn, pa)) in names.iter().enumerate() {
+                if idx != 0 && idx + 1 != k && idx != k && idx + 1 != names.len() {
+                    continue;
+                }
+                let args: Vec<String> = (0..pa + 1).map(|i| i.to_string()).collect();
+                let src = format!("keep <- 42\n{imp}DISPLAY(keep)\n{pn}({})\n", args.join(", "));
+                let expected = if idx < k { "defined" } else { "undefined" };
+                cases.push(Case::new(Kind::Run, src).tag("library:long-list").aux(format!("{expected}|{pn}")));
             }
         }
     }
@@ -1029,7 +1053,7 @@ pub fn c13(ctx: &Ctx) -> PropResult {
     stats.merge(collect(raw_verdicts));
     PropResult {
         stats,
-        rule: "library imports: for every module of the live registry the forms IMPORT MOD, IMPORT \"f\" FROM MOD (several names), IMPORT [f, g] FROM MOD, an unknown name, an unknown module; after each, every procedure name of the whole registry is probed without running it (a call with one argument too many: the label is the argument list iff the name is defined, the name iff it is not) and the importer's variable is displayed; user modules: generated files in the importer's directory or sub-directories with top-level output, a module variable, two exported procedures (one calling the other), a private procedure, optionally a runtime / syntax / lexical error or a nested import relative to the module's own directory; imported whole, by one name, by a list, by a private name, twice; probes for exported / private / module-variable / nested names and the importer's variables; in-process with the model given the same file tree; modules declaring one name several times (exported / private in every order) under every import form; module top-level code calling what only its importer imported or declared; ordered pairs and triples of imports of one module (whole / one name / another / a list, the second also in a loop); trees with symbolic links (program, module, directory reached through a link); a procedure called last before and first after an IMPORT that installs another procedure of that name; a program's procedure named like a module's, called before and after the import; EXPORT at every nesting".into(),
+        rule: "library imports: for every module of the live registry the forms IMPORT MOD, IMPORT \"f\" FROM MOD (several names), IMPORT [f, g] FROM MOD, an unknown name, an unknown module; after each, every procedure name of the whole registry is probed without running it (a call with one argument too many: the label is the argument list iff the name is defined, the name iff it is not) and the importer's variable is displayed; user modules: generated files in the importer's directory or sub-directories with top-level output, a module variable, two exported procedures (one calling the other), a private procedure, optionally a runtime / syntax / lexical error or a nested import relative to the module's own directory; imported whole, by one name, by a list, by a private name, twice; probes for exported / private / module-variable / nested names and the importer's variables; in-process with the model given the same file tree; modules declaring one name several times (exported / private in every order) under every import form; module top-level code calling what only its importer imported or declared; ordered pairs and triples of imports of one module (whole / one name / another / a list, the second also in a loop); trees with symbolic links (program, module, directory reached through a link); a procedure called last before and first after an IMPORT that installs another procedure of that name; a program's procedure named like a module's, called before and after the import; EXPORT at every nesting; selective lists of 3 .. 40 names".into(),
         exhaustive: false,
         notes: vec!["exported procedures that call a procedure the importer did not import are the known finding (see known_findings.txt); the generator imports the whole module whenever an exported procedure calls another one".into()],
     }
@@ -1421,6 +1445,13 @@ pub fn c18(ctx: &Ctx) -> PropResult {
         let k = 1 + g.rng.below(4);
         programs.push(("random".into(), g.program(k)));
     }
+    // (appended) SLEEP with durations that take no time (zero, negative, NaN, tiny): whatever it does with them, it
+    // writes nothing; statements after RETURN in the same block; the legacy spelling of the robot's move
+    for a in ["0", "-1", "0 - 0.5", "NAN", "0.001", "-0", "0 - INF"] {
+        programs.push(("TIME.SLEEP".into(), format!("{all_imports}{}DISPLAY(\"A\")\nr <- SLEEP({a})\nDISPLAY(r)\nDISPLAY(\"B\")\n", crate::gen::exemplar_prelude())));
+    }
+    programs.push(("dead-code".into(), "PROCEDURE f() {\nRETURN 1\nDISPLAY(\"dead\")\n}\nDISPLAY(f())\nPROCEDURE g(x) {\nIF (x) {\nRETURN 2\nx <- 0\n}\nRETURN 3\nRETURN 4\n}\nDISPLAY(g(TRUE) + g(FALSE))\n".into()));
+    programs.push(("ROBOT.legacy-move".into(), format!("{all_imports}rb <- ROBOT_MAP(\"e..\")\nDISPLAY(\"A\")\nDISPLAY(MOVE_FOWARD(rb))\nDISPLAY(MOVE_FOWARD(rb))\nDISPLAY(MOVE_FORWARD(rb))\nDISPLAY(\"B\")\n")));
     // single-threaded, with the process's own descriptors 1 and 2 captured
     let mut d = Driver::spawn(&ctx.driver);
     let mut model_outs = vec![];
@@ -1502,7 +1533,7 @@ pub fn c18(ctx: &Ctx) -> PropResult {
     }
     PropResult {
         stats: st,
-        rule: "every library procedure of the live registry (SLEEP excepted; FS inside a scratch working directory, INPUT with an empty standard input) called once with plausible arguments between two DISPLAY probes, every statement form, the three IMPORT forms, lexical / syntax / runtime errors, random programs; run in-process with the output channel captured by the hook sink while the process's file descriptors 1 and 2 are redirected to files: the sink must hold exactly the model's displayed output and the descriptors must stay empty (lexing and parsing alone included); static part: the census of output sites regenerated into Gen/Sites.lean and closed by `decide` (see theorems); programs with 1 .. 300 lexical / syntax errors; INPUT at end of input; every FS procedure failing for every kind of reason; every environment variable the code reads is set; thirteen operators x ten operand kinds squared".into(),
+        rule: "every library procedure of the live registry (SLEEP excepted; FS inside a scratch working directory, INPUT with an empty standard input) called once with plausible arguments between two DISPLAY probes, every statement form, the three IMPORT forms, lexical / syntax / runtime errors, random programs; run in-process with the output channel captured by the hook sink while the process's file descriptors 1 and 2 are redirected to files: the sink must hold exactly the model's displayed output and the descriptors must stay empty (lexing and parsing alone included); static part: the census of output sites regenerated into Gen/Sites.lean and closed by `decide` (see theorems); programs with 1 .. 300 lexical / syntax errors; INPUT at end of input; every FS procedure failing for every kind of reason; every environment variable the code reads is set; thirteen operators x ten operand kinds squared; SLEEP with durations that take no time; the legacy spelling of the robot's move; dead code after RETURN".into(),
         exhaustive: false,
         notes: vec![format!("{} output sites in /repo/src", output_sites().len()), "the library in its wasm configuration is type-checked by ./check on every run (cargo check --lib --no-default-features --features wasm), not executed".into()],
     }
